@@ -54,6 +54,27 @@ extern "C" {
     fn polynomial_len(p: P) -> usize;
     fn polynomial_get_coeffs(p: P, buf: *mut f64, max_len: usize) -> usize;
     fn destroy_polynomial(p: P);
+    // CNF / order / dtree / vtree / decision-DNNF / SDD wrappers
+    fn literal_new(label: u64, polarity: bool) -> u64;
+    fn cnf_new(clauses: *const CClause, len: usize) -> P;
+    fn cnf_from_dimacs(text: *const c_char) -> P;
+    fn cnf_min_fill_order(cnf: P) -> P;
+    fn var_order_new(order: *const u64, len: usize) -> P;
+    fn var_order_linear(num_vars: usize) -> P;
+    fn robdd_builder_all_table(order: P) -> P;
+    fn robdd_builder_compile_cnf(builder: P, cnf: P) -> P;
+    fn ddnnf_builder_new(order: P) -> P;
+    fn ddnnf_builder_compile_cnf_topdown(builder: P, cnf: P) -> P;
+    fn dtree_from_cnf(cnf: P, order: P) -> P;
+    fn vtree_from_dtree(dtree: P) -> P;
+    fn sdd_builder_new(vtree: P) -> P;
+    fn sdd_builder_compile_cnf(builder: P, cnf: P) -> P;
+    fn sdd_wmc(sdd: P, wmc: P) -> f64;
+}
+#[repr(C)]
+struct CClause {
+    vars: *mut u64,
+    len: usize,
 }
 
 pub const PROP: Prop = Prop { gen, run, panic_ok: never };
@@ -77,6 +98,18 @@ fn poly_weight(v: usize, w: (f64, f64)) -> (Vec<f64>, Vec<f64>) {
 }
 
 pub fn gen(rng: &mut Rng, idx: usize, n: usize, thorough: bool) -> String {
+    if idx % 4 == 3 {
+        // CNF pipeline through the C API: cnf_new / cnf_from_dimacs, orders, BDD / decision-DNNF / SDD compilation
+        use rsdd_verif_harness::exprs::*;
+        let frac = (idx * 100) / n.max(1);
+        let nv = 2 + (frac * if thorough { 4 } else { 3 }) / 100;
+        let c = gen_cnf(rng, nv, 2 + frac / 25, true);
+        let mut s = format!("F {} {nv}", rng.below(3));
+        cnf_str(&c, &mut s);
+        for v in rng.perm(nv) { s.push_str(&format!(" {v}")); }
+        for _ in 0..nv { s.push_str(&format!(" {}", rng.below(9))); }
+        return s;
+    }
     let frac = (idx * 100) / n.max(1);
     let maxv = if thorough { 7 } else { 5 };
     let nvars = (1 + (frac * (maxv - 1)) / 100 + rng.range(0, 1)).min(maxv);
@@ -151,7 +184,97 @@ fn json_eval(js: &serde_json::Value, ptr: &serde_json::Value, a: usize) -> bool 
     r != p["compl"].as_bool().unwrap()
 }
 
+/// F <order kind> <nv> <cnf> <perm>*nv <hi8>*nv : the CNF-side wrappers
+fn run_cnf_pipeline(case: &str, st: &mut Stats) -> Outcome {
+    use rsdd::builder::sdd::CompressionSddBuilder;
+    use rsdd::builder::BottomUpBuilder as _;
+    use rsdd::repr::{Cnf, DTree, SddPtr, VTree, VarOrder};
+    use rsdd_verif_harness::exprs::*;
+    use rsdd_verif_harness::sddprog::sdd_eval;
+    let t = toks(case);
+    let okind: usize = t[1].parse().unwrap();
+    let nv: usize = t[2].parse().unwrap();
+    let mut i = 3;
+    let raw = cnf_parse(&t, &mut i);
+    let perm: Vec<u64> = (0..nv).map(|j| t[i + j].parse().unwrap()).collect();
+    let hi8: Vec<f64> = (0..nv).map(|j| t[i + nv + j].parse::<f64>().unwrap() / 8.0).collect();
+    let tt: Vec<bool> = (0..(1usize << nv)).map(|a| cnf_eval(&raw, a)).collect();
+    let mut fails = vec![];
+    let native_cnf = to_cnf(&raw);
+    unsafe {
+        // the same CNF through cnf_new (array of C clauses of literal_new words)
+        let mk_cnf = || -> P {
+            let mut words: Vec<Vec<u64>> = raw.iter().map(|c| c.iter().map(|(v, p)| literal_new(*v, *p)).collect()).collect();
+            let cls: Vec<CClause> = words.iter_mut().map(|w| CClause { vars: w.as_mut_ptr(), len: w.len() }).collect();
+            cnf_new(cls.as_ptr(), cls.len())
+        };
+        let c1 = mk_cnf();
+        if (*(c1 as *const Cnf)).clauses() != native_cnf.clauses() || (*(c1 as *const Cnf)).num_vars() != native_cnf.num_vars() {
+            fails.push("cnf_new builds a different CNF than Cnf::new on the same clauses".to_string());
+        }
+        // ... and through cnf_from_dimacs
+        let mut text = format!("p cnf {nv} {}\n", raw.len());
+        for cl in &raw { for (v, p) in cl { text.push_str(&format!("{}{} ", if *p { "" } else { "-" }, v + 1)); } text.push_str("0\n"); }
+        let ctext = std::ffi::CString::new(text).unwrap();
+        let c2 = cnf_from_dimacs(ctext.as_ptr());
+        if (*(c2 as *const Cnf)).clauses() != native_cnf.clauses() {
+            fails.push("cnf_from_dimacs parses a different CNF than the clauses printed".to_string());
+        }
+        let cnv = (*(c1 as *const Cnf)).num_vars();
+        // orders
+        let mk_order = |kind: usize| -> P {
+            match kind { 0 => var_order_linear(cnv), 1 => cnf_min_fill_order(c1), _ => { let p: Vec<u64> = perm.iter().cloned().filter(|v| (*v as usize) < cnv).collect(); var_order_new(p.as_ptr(), p.len()) } }
+        };
+        let o1 = mk_order(okind);
+        let native_order: VarOrder = (*(o1 as *const VarOrder)).clone();
+        if okind == 1 && format!("{}", native_cnf.min_fill_order()) != format!("{native_order}") {
+            fails.push("cnf_min_fill_order differs from the native min-fill order".to_string());
+        }
+        // BDD compilation (consumes the order and a CNF)
+        let bb = robdd_builder_all_table(o1);
+        let bd = robdd_builder_compile_cnf(bb, mk_cnf());
+        let btab: Vec<bool> = (0..(1usize << nv)).map(|a| c_eval(bd, a)).collect();
+        if btab != tt { fails.push("robdd_builder_compile_cnf: the diagram read through the C accessors denotes a different function than the CNF".to_string()); }
+        // decision-DNNF (consumes an order)
+        let db = ddnnf_builder_new(mk_order(okind));
+        let dd = ddnnf_builder_compile_cnf_topdown(db, c1);
+        if (0..(1usize << nv)).any(|a| c_eval(dd, a) != tt[a]) { fails.push("ddnnf_builder_compile_cnf_topdown: the diagram denotes a different function than the CNF".to_string()); }
+        // dtree -> vtree -> SDD -> sdd_wmc
+        let o3 = mk_order(okind);
+        let dt = dtree_from_cnf(c1, o3);
+        let vt = vtree_from_dtree(dt);
+        let native_vt = VTree::from_dtree(&DTree::from_cnf(&native_cnf, &native_order));
+        if vt.is_null() != native_vt.is_none() { fails.push("vtree_from_dtree null-ness differs from the native Option".to_string()); }
+        if !vt.is_null() {
+            let leaves_c: Vec<usize> = { let mut l: Vec<usize> = (*(vt as *const VTree)).all_vars().into_iter().collect(); l.sort(); l };
+            let occurring: Vec<usize> = { let mut l: Vec<usize> = raw.iter().flatten().map(|(v, _)| *v as usize).collect(); l.sort(); l.dedup(); l };
+            if leaves_c != occurring { fails.push("the vtree from vtree_from_dtree does not have exactly the CNF's variables as leaves".to_string()); }
+            // a CNF over exactly the vtree's variables is needed by the SDD builder: only when every variable below num_vars occurs
+            if occurring.len() == cnv {
+                let sb = sdd_builder_new(vt);
+                let sp = sdd_builder_compile_cnf(sb, c1);
+                let sptr: SddPtr<'static> = *(sp as *const SddPtr<'static>);
+                if (0..(1usize << nv)).any(|a| sdd_eval(sptr, a & ((1 << cnv) - 1)) != tt[a]) { fails.push("sdd_builder_compile_cnf: the SDD denotes a different function than the CNF".to_string()); }
+                let w = new_wmc_params_f64();
+                for v in 0..cnv { wmc_param_f64_set_weight(w, v as u64, 1.0 - hi8[v], hi8[v]); }
+                let got = sdd_wmc(sp, w);
+                let mut brute = 0.0f64;
+                for a in 0..(1usize << cnv) { if tt[a] { brute += (0..cnv).map(|v| if (a >> v) & 1 == 1 { hi8[v] } else { 1.0 - hi8[v] }).product::<f64>(); } }
+                if got != brute { fails.push(format!("sdd_wmc = {got}, the weighted sum over models is {brute}")); }
+                free_wmc_params_f64(w);
+                st.bump("capi_sdd_pipeline");
+            }
+        }
+        st.bump("capi_cnf_pipeline");
+        let _ = CompressionSddBuilder::new(VTree::new_leaf(VarLabel::new(0)));
+        Outcome { result: { let mut h = String::new(); for ch in btab.chunks(4) { let mut d = 0; for (k, b) in ch.iter().enumerate() { if *b { d |= 1 << k } } h.push_str(&format!("{d:x}")); } h }, fails, nontrivial: raw.len() >= 2 }
+    }
+}
+
 pub fn run(case: &str, st: &mut Stats) -> Outcome {
+    if case.starts_with("F ") {
+        return run_cnf_pipeline(case, st);
+    }
     let prog = parse(case);
     let total = prog.total_vars();
     assert!(prog.rest[0] == "K");
